@@ -68,6 +68,8 @@ def gen_params(r, name, dom):
     if name == 'aim':
         p['rounds'] = r.choice([None, 4, 6, 10])
         p['workload'] = r.sample(pairs, r.randint(2, len(pairs)))
+        # AIM(epsilon, delta, prng=...) : the constructor hands its third argument to the base class, whose third parameter is `bounded`
+        p['prng'] = r.random() < 0.5
     elif name == 'mwem':
         p['rounds'] = r.choice([1, 2, 3])
         p['workload'] = r.sample(pairs, r.randint(2, len(pairs)))
